@@ -649,6 +649,7 @@ class C17(object):
         # convergence twin
         forced = sm.forced_after or set()
         if plan in ("default", "explicit_failed") and sm.cause_clean and forced and wm.status in TERMINAL_WF \
+                and not wm.retry_cut \
                 and not any(lang.in_cycle(prog, t) for t in forced):
             sk = RerunScheduler(seed, dict(profile, prog=prog), "none", forced_all=forced)
             try:
